@@ -358,6 +358,9 @@ def h_compose(b0: bool, b1: bool, b2: bool, b3: bool, b4: bool, b5: bool, b6: bo
             exp = ref_parse(defn, argv)
         c1, r1 = _run(config, t1, "cc", argv)
         c2, r2 = _run(config, t2, "cc", argv + opts)
+        # history: the same compiler table is used again for the same command after an unrelated one
+        _run(config, t1, "cc", ["--arch", "x2", "-fpass=b", "y.c"])
+        c3, r3 = _run(config, t1, "cc", argv)
     except Exception as e:
         if P.get("_replay"):
             LAST.update(argv=argv, options=opts, exception=repr(e))
@@ -367,6 +370,10 @@ def h_compose(b0: bool, b1: bool, b2: bool, b3: bool, b4: bool, b5: bool, b6: bo
         why2 = _compare(c2, exp)
         if why2 is not None:
             why = "explicit-options run: " + why2
+    if why is None:
+        why3 = _compare(c3, exp)
+        if why3 is not None:
+            why = "second use of the same compiler table: " + why3
     if why is None and (r1.warnings() or [m for l, m in r1.records if l == "error"]):
         why = "unexpected diagnostics %s" % (r1.records,)
     if P.get("_replay"):
@@ -403,30 +410,44 @@ def _load_builtin():
     return _BUILTIN
 
 
+_PRISTINE = {}
+
+
 def prepare(params):
     import codebasin.config as config
 
     config._load_compilers()
+    _PRISTINE["c"] = copy.deepcopy(config._compilers)
     _load_builtin()
 
 
-def h_builtin(b0: bool, b1: bool, b2: bool, b3: bool) -> bool:
+def h_builtin(b0: bool, b1: bool, b2: bool, b3: bool, c0: bool, c1: bool, c2: bool, c3: bool) -> bool:
     """
     post: _
     """
+    # history: a first command (flag subset c) is parsed with the same compiler table, then the command under test
+    # (flag subset b); nothing the first parse did may change the second result.  seq=False: c is forced empty and no
+    # first command is parsed.
     import codebasin.config as config
 
     name = P["compiler"]
     frs = BUILTIN_FLAGS[name]
     bits = [b0, b1, b2, b3]
+    cbits = [c0, c1, c2, c3]
     for i in range(len(frs), 4):
-        if bits[i]:
+        if bits[i] or cbits[i]:
             return True
+    if not P.get("seq") and (c0 or c1 or c2 or c3):
+        return True
     argv = []
+    first = []
     for i in range(len(frs)):
         if bits[i]:
             argv += frs[i]
+        if cbits[i]:
+            first += frs[i]
     argv.append("x.cpp")
+    first.append("w.cpp")
     table = _load_builtin()
     target = name
     hops = 0
@@ -443,6 +464,10 @@ def h_builtin(b0: bool, b1: bool, b2: bool, b3: bool) -> bool:
             old = config.log
             config.log = rec
             try:
+                config._compilers = copy.deepcopy(_PRISTINE["c"])  # every path starts from the pristine shipped definitions
+                if P.get("seq"):
+                    config.ArgumentParser("/usr/local/bin/" + name).parse_args(list(first))
+                    rec.records.clear()
                 cfgs = config.ArgumentParser("/opt/bin/" + name).parse_args(list(argv))
             finally:
                 config.log = old
@@ -554,6 +579,8 @@ def obligations(tier, known):
     for name in BUILTIN_FLAGS:
         obs.append(Ob(id="builtin/" + name, kind="ch", module=__name__, func="h_builtin", params=dict(compiler=name), timeout=200,
                       group="builtin"))
+        obs.append(Ob(id="builtin-seq/" + name, kind="ch", module=__name__, func="h_builtin", params=dict(compiler=name, seq=True),
+                      timeout=300, group="builtin"))
     for sc in ATTR:
         obs.append(Ob(id="attr/" + sc, kind="ch", module=__name__, func="h_attr", params=dict(scenario=sc), timeout=200,
                       group="attr"))
